@@ -238,7 +238,7 @@ CHECKS = {
              "cidlink.Memory and fsstore (two sharding/escaping configurations) under adversarial key profiles, scribbles "
              "over the caller's buffer after each put, and watches every filesystem path through the verif hooks plus a "
              "directory diff against a canary. In the other direction random 300-call histories recorded from the real "
-             "stores are validated by TLC against the same specification (StorageTrace.tla). In the thorough tier the "
+             "stores are validated by TLC against the same specification (StorageTrace.tla). The "
              "contract's invariants are also proved with TLAPS for every number of keys, operations and routes "
              "(StorageProof.tla, 34 obligations).",
         design_ref="DESIGN.md section 4, C17",
